@@ -84,6 +84,9 @@ def compute_burst_features(df_shape_features, sig, burst_method='cycles', burst_
     # Use dual threshold burst detection
     elif burst_method == 'amp':
 
+        # Prevent removing keys from the dictionary passed in
+        burst_kwargs = {} if burst_kwargs is None else burst_kwargs.copy()
+
         fs = burst_kwargs.pop('fs', None)
         f_range = burst_kwargs.pop('f_range', None)
 
